@@ -94,6 +94,8 @@ func runC19(p *core.Prog, r *core.Report) {
 	// ---------------- R4 precondition
 	r5 := r.Rule("C19.R5", "an object counts as moved only where it becomes readable: putToShard stores only after the target shard's Exists answered (false, nil) (shared with C20.R6)", 1)
 	putOnlyWhereAbsent(p, r, r5)
+	r6 := r.Rule("C19.R6", "the listing Evacuate enumerates the source shard with leaves an object out only because inGarbage says it is not available (a redundant-copy mark still is) AND no live lock overrides that, or its type is unknown: every other path through the loop body appends it", 1)
+	listingSkipsOnlyUnavailable(p, r, r6)
 	r4 := r.Rule("C19.R4", "evacuation proceeds only if every named shard is read-only", 1)
 	ro := core.G("shard-read-only", core.IsTrue, "(pkg/local_object_storage/shard/mode.Mode).ReadOnly")
 	gfr := core.Flow(ev, []core.Guard{ro})
@@ -122,6 +124,33 @@ func runC19(p *core.Prog, r *core.Report) {
 			}
 		}
 		r4.Check(good, core.FuncName(ev)+"#read-only-precondition", p.InstrPos(s.Call), "the check loop advances only past read-only shards", "the precondition loop moves on past a shard that is not read-only")
+	}
+	// ---------------- R7 a shard that cannot be listed is refused, not 'done'
+	r7 := r.Rule("C19.R7", "Evacuate treats only the end-of-listing error of the source shard's listing as 'this shard is done'; any other listing error (a shard without metabase in particular) fails the evacuation", 1)
+	nIs := 0
+	for _, ls := range core.CallSites([]*ssa.Function{ev}, func(s core.Site) bool { return strings.HasSuffix(s.Name, "shard.Shard).ListWithCursor") }) {
+		v := ls.Call.Value()
+		if v == nil || v.Referrers() == nil {
+			continue
+		}
+		for _, ref := range *v.Referrers() {
+			ex, ok := ref.(*ssa.Extract)
+			if !ok || ex.Type().String() != "error" || ex.Referrers() == nil {
+				continue
+			}
+			for _, u := range *ex.Referrers() {
+				c, isC := u.(*ssa.Call)
+				if !isC || core.CalleeName(c) != "errors.Is" {
+					continue
+				}
+				nIs++
+				tgt := core.ErrTargetName(c.Call.Args[1])
+				r7.Check(strings.HasSuffix(tgt, "ErrEndOfListing"), core.FuncName(ev)+"#listing-error-is-"+tgt[strings.LastIndex(tgt, ".")+1:], p.InstrPos(c), "the end of the listing", "a listing error other than the end of the listing ("+tgt+") is accepted as 'nothing more to move': Evacuate reports success for a shard it could not list, and the objects the engine still serves from it are lost with the shard")
+			}
+		}
+	}
+	if nIs == 0 {
+		r.Fatalf("C19.R7: the listing error is not classified with errors.Is in Evacuate")
 	}
 }
 
@@ -204,5 +233,64 @@ func evacuationAccountsEveryObject(p *core.Prog, r *core.Report, ruleID string) 
 		if c, isC := v.(*ssa.Const); isC && c.IsNil() {
 			r2.Check(outer != nil && outer.Dominates(b) && !reaches(b, outer), core.FuncName(ev)+"#return-nil", p.InstrPos(ret), "success only after the loop over all drained shards", "Evacuate reports success from inside the evacuation loops")
 		}
+	}
+}
+
+// listingSkipsOnlyUnavailable: see C19.R6.
+func listingSkipsOnlyUnavailable(p *core.Prog, r *core.Report, h *core.RuleH) {
+	stAvail, _ := p.ConstInt(mb + "statusAvailable")
+	sel := p.Func(mb + "selectNFromBucket")
+	if sel == nil {
+		r.Fatalf("%s: selectNFromBucket not found", h.ID())
+		return
+	}
+	var body *ssa.Function
+	for _, a := range sel.AnonFuncs {
+		for _, b := range a.Blocks {
+			for _, in := range b.Instrs {
+				if storeToFreeVar(in, "to") {
+					body = a
+				}
+			}
+		}
+	}
+	if body == nil {
+		h.Bad(core.FuncName(sel)+"#loop-body", p.Pos(sel.Pos()), "the listing loop body that appends to the result was not found")
+		return
+	}
+	gs := []core.Guard{
+		{Name: "appended", Comps: []core.Comp{{Result: -1, Kind: core.Executed}}, Instr: func(in ssa.Instruction) bool { return storeToFreeVar(in, "to") }},
+		{Name: "status-says-not-available", Comps: []core.Comp{{Result: -1, Kind: core.NeConst, Const: stAvail}}, Match: func(s core.Site) bool {
+			return s.Name == mb+"inGarbage" && core.ParamIndex(body, s.Call.Common().Args[1]) == 0
+		}},
+		{Name: "type-unknown", Comps: []core.Comp{{Result: 1, Kind: core.NonNil}}, Match: func(s core.Site) bool {
+			return s.Name == mb+"fetchTypeForIDWBuf" || s.Name == mb+"fetchTypeForID"
+		}},
+		{Name: "no-live-lock", Comps: []core.Comp{{Result: -1, Kind: core.IsFalse}}, Match: func(s core.Site) bool { return s.Name == mb+"objectLocked" }},
+	}
+	n := core.CheckEffectsFn(p, h, body, core.EffectRule{Guards: gs,
+		Derived: []core.Derived{{Name: "listed-or-rightly-skipped", Alts: [][]string{{"appended"}, {"status-says-not-available", "no-live-lock"}, {"type-unknown"}}}},
+		Need:    func(string) []string { return []string{"listed-or-rightly-skipped"} },
+		Effect: func(_ *core.Prog, in ssa.Instruction) (string, bool) {
+			// `continue` in a range-over-func body is `return true`
+			switch x := in.(type) {
+			case *ssa.Return:
+				if len(x.Results) == 1 {
+					if c, ok := x.Results[0].(*ssa.Const); ok && c.Value != nil && c.Value.String() == "true" {
+						return "next-object", true
+					}
+				}
+			case *ssa.Store:
+				// defer-spilled result cell
+				if c, ok := x.Val.(*ssa.Const); ok && x.Val.Type().String() == "bool" && c.Value != nil && c.Value.String() == "true" {
+					if al, isAl := x.Addr.(*ssa.Alloc); isAl && al.Comment == "" {
+						return "next-object", true
+					}
+				}
+			}
+			return "", false
+		}})
+	if n == 0 {
+		r.Fatalf("%s: no 'next object' exit found in the listing loop body", h.ID())
 	}
 }
